@@ -7,8 +7,9 @@ from layers.integ import layer_int
 
 MODULE = 'Flowdyn.Props.C01'
 import core
-THEOREMS = core.theorems_in(['C01a.lean'], 'Flowdyn.C01')
-PARTIAL = {"2D": "2D balance/periodic/wall theorems pending the 2D model (checked by the sweep on the implementation)", "implicit": "conservation by the implicit family is checked by the sweep (linear-solver accuracy); theorem pending"}
+THEOREMS = core.theorems_in(['C01a.lean'], 'Flowdyn.C01') + ['Flowdyn.C15.balance2d', 'Flowdyn.C15.periodic2d', 'Flowdyn.C06.fdJac_conservative', 'Flowdyn.C06.thetaStep_conserves']
+AUDIT_IMPORTS = ['Flowdyn.Props.C15', 'Flowdyn.Props.C06']
+PARTIAL = {"2D walls": "2D balance and periodic invariance are theorems (C15.balance2d, periodic2d); mass/energy invariance with 2D slip walls is checked by the sweep", "implicit": "a theta-step with one global time step conserves every linear functional killed by the operator (C06.thetaStep_conserves); the lift to gear with memory and to whole solves is by the sweep"}
 LEVEL_NOTE = "telescoping balance, periodic and wall invariance, integrator conservation proved on the model; 2D and implicit clauses: see PARTIAL"
 
 EXPL = ['explicit', 'rk2', 'rk2_heun', 'rk3_heun', 'rk3ssp', 'rk4', 'lsrk25bb', 'lsrk26bb', 'lsrk4']
@@ -16,7 +17,9 @@ IMPL = ['implicit', 'cranknicolson', 'gear']
 
 
 def layers(ctx):
-    return [layer_mesh1d, layer_rhs1d, layer_int]
+    from layers.fvm2d import layer_rhs2d, layer_mesh2d
+    from layers.driver import layer_istep
+    return [layer_mesh1d, layer_rhs1d, layer_int, layer_istep, layer_mesh2d, layer_rhs2d]
 
 
 def integrals(disc, f):
